@@ -1,1 +1,370 @@
-From PV Require Import PubSub.Model PubSub.Proofs.
+(* C08 - publish/subscribe: a fired event reaches exactly its subscribers,
+   once, in subscription order; duplicates ignored; unsubscribing an absent
+   listener harmless; the four remove_all_listeners forms; payload against
+   metadata; timed events keep their timestamp.
+   Property-level theorems only; each is closed by [exact] of a lemma proved
+   in PubSub/*.v and followed by Print Assumptions.
+
+   Reading guide.  [run_top E fuel (init scr) ops = Some (s', t)] : the
+   outermost caller performs [ops] on a fresh EventProducer; [E] gives the
+   metadata of every event type; [scr] gives every listener the programs it
+   performs from inside its successive notifications (subscribe, the
+   unsubscribe forms, nested fire, raise) - so every history with re-entrant
+   listeners is an instance.  The trace [t] contains, for fire invocation
+   number [i] (outermost or nested): a start marker [ObsFire i ev subs]
+   ([subs] = subscribers of the type of [ev] in the state the call is made in,
+   see C08_marker_records_subscribers_at_moment_of_firing), the deliveries
+   [ObsDeliver i l ev], and [ObsFireDone i] if the call returned normally.
+   [dels i t] = the (listener, event) pairs delivered by invocation [i], in
+   order; [notified i t] = their listeners. *)
+From Coq Require Import ZArith List Bool Arith.
+From PV Require Import PubSub.Model PubSub.SubsProofs PubSub.EventProofs PubSub.Proofs PubSub.OpsProofs.
+Import ListNotations.
+
+(* ====================================================================== *)
+(* 1. Delivery: exactly once, in subscription order, to the subscribers    *)
+(*    at the moment of firing, to nobody else - for all histories          *)
+(* ====================================================================== *)
+
+(* Every history has a behaviour (the fuel the correspondence check uses is
+   always enough), so the hypotheses [run_top ... = Some ...] below are
+   satisfiable for EVERY choice of metadata, listener programs and operations. *)
+Theorem C08_every_history_has_a_behaviour :
+  forall E scr ops, exists s' t, run_top E (fuel_for (init scr)) (init scr) ops = Some (s', t).
+Proof. exact enough_fuel. Qed.
+Print Assumptions C08_every_history_has_a_behaviour.
+
+Theorem C08_behaviour_independent_of_fuel :
+  forall E f f', f <= f' -> forall ops s r,
+    run_top E f s ops = Some r -> run_top E f' s ops = Some r.
+Proof. exact run_top_fuel_irrelevant. Qed.
+Print Assumptions C08_behaviour_independent_of_fuel.
+
+(* In every reachable state: no event type stored twice, no listener twice per
+   type, no empty list stored; every subscriber snapshot is duplicate-free. *)
+Theorem C08_invariant_reachable :
+  forall E fuel scr ops s' t,
+    run_top E fuel (init scr) ops = Some (s', t) ->
+    wf (st_subs s') /\ Forall marker_ok t.
+Proof. exact invariant_reachable. Qed.
+Print Assumptions C08_invariant_reachable.
+
+(* The heart: for every fire invocation i of every history (outermost or
+   nested, whatever the notified listeners do to the producer meanwhile) that
+   returned: the listeners notified by THIS invocation are exactly the
+   subscribers at the moment of firing, in subscription order; each of them
+   exactly once and nobody else (occurrence count 1 resp. 0); every delivery
+   carries the fired event. *)
+Theorem C08_fire_delivers_exactly_once_in_order_to_subscribers_at_firing :
+  forall E fuel scr ops s' t i ev subs,
+    run_top E fuel (init scr) ops = Some (s', t) ->
+    In (ObsFire i ev subs) t -> In (ObsFireDone i) t ->
+    notified i t = subs /\
+    (forall l, count_occ Nat.eq_dec (notified i t) l = if memb l subs then 1 else 0) /\
+    Forall (fun d => snd d = ev) (dels i t).
+Proof. exact exactly_once_history. Qed.
+Print Assumptions C08_fire_delivers_exactly_once_in_order_to_subscribers_at_firing.
+
+(* The same with the unfinished case: while running, or when a listener raised
+   (the exception propagates, the remaining subscribers are not notified), a
+   prefix of the snapshot was notified, in order; invocation numbers are unique. *)
+Theorem C08_fire_delivers_snapshot_history :
+  forall E fuel scr ops s' t i ev subs,
+    run_top E fuel (init scr) ops = Some (s', t) ->
+    In (ObsFire i ev subs) t ->
+    NoDup subs /\
+    (exists k, dels i t = to ev (firstn k subs)) /\
+    (In (ObsFireDone i) t -> dels i t = to ev subs) /\
+    (forall ev' subs', In (ObsFire i ev' subs') t -> ev' = ev /\ subs' = subs).
+Proof. exact fire_delivers_snapshot_history. Qed.
+Print Assumptions C08_fire_delivers_snapshot_history.
+
+Theorem C08_interrupted_fire_at_most_once :
+  forall E fuel scr ops s' t i ev subs,
+    run_top E fuel (init scr) ops = Some (s', t) ->
+    In (ObsFire i ev subs) t ->
+    (exists k, notified i t = firstn k subs) /\
+    NoDup (notified i t) /\
+    (forall l, In l (notified i t) -> In l subs) /\
+    Forall (fun d => snd d = ev) (dels i t).
+Proof. exact at_most_once_history. Qed.
+Print Assumptions C08_interrupted_fire_at_most_once.
+
+(* Nobody else: every delivery anywhere in a history belongs to a fire
+   invocation of that very event whose snapshot contains the listener. *)
+Theorem C08_nobody_else :
+  forall E fuel scr ops s' t i l ev,
+    run_top E fuel (init scr) ops = Some (s', t) ->
+    In (ObsDeliver i l ev) t ->
+    exists subs, In (ObsFire i ev subs) t /\ In l subs.
+Proof. exact nobody_else_history. Qed.
+Print Assumptions C08_nobody_else.
+
+(* The marker of an invocation records the subscribers of the state the call is
+   made in - "at the moment of firing". *)
+Theorem C08_marker_records_subscribers_at_moment_of_firing :
+  forall E f s o ev,
+    fired_event E o = Some ev ->
+    match exec E (S f) s o with
+    | Done _ t | Raised _ _ t =>
+        exists t', t = ObsFire (st_next s) ev (subscribers (st_subs s) (ev_type ev)) :: t'
+    | OutOfFuel => True
+    end.
+Proof. exact fire_marker_is_state. Qed.
+Print Assumptions C08_marker_records_subscribers_at_moment_of_firing.
+
+(* The same fact seen from an arbitrary state s (any subscription map, any
+   pending listener programs, any nesting level): fire / fire_timed /
+   fire_event / fire_timed_event of an accepted event ev delivers ev to
+   subscribers s (type of ev), in order. *)
+Theorem C08_fire_delivers_snapshot_from_any_state :
+  forall E fuel s o ev,
+    fired_event E o = Some ev ->
+    let subs := subscribers (st_subs s) (ev_type ev) in
+    match exec E fuel s o with
+    | Done s' t => dels (st_next s) t = to ev subs
+    | Raised _ s' t => exists k, dels (st_next s) t = to ev (firstn k subs)
+    | OutOfFuel => True
+    end.
+Proof. exact fire_delivers_snapshot. Qed.
+Print Assumptions C08_fire_delivers_snapshot_from_any_state.
+
+(* An operation that is not an accepted fire delivers nothing to anybody. *)
+Theorem C08_no_event_no_delivery :
+  forall E fuel s o,
+    fired_event E o = None ->
+    match exec E fuel s o with
+    | Done s' t | Raised _ s' t => forall i l ev, ~ In (ObsDeliver i l ev) t
+    | OutOfFuel => True
+    end.
+Proof. exact no_event_no_delivery. Qed.
+Print Assumptions C08_no_event_no_delivery.
+
+(* A refused event raises EventError before anything is delivered and leaves
+   the producer untouched. *)
+Theorem C08_refused_fire_raises_event_error :
+  forall E f s o,
+    (forall a l, o <> OAdd a l) -> (forall a l, o <> ORemove a l) -> (forall a l, o <> ORemoveAll a l) ->
+    o <> OHas -> o <> ORaise ->
+    fired_event E o = None ->
+    exists k, exec E (S f) s o = Raised k s [] /\ is_event_error k = true.
+Proof. exact refused_fire_raises. Qed.
+Print Assumptions C08_refused_fire_raises_event_error.
+
+(* ====================================================================== *)
+(* 2. Subscribing: order of subscription, duplicates ignored               *)
+(* ====================================================================== *)
+Theorem C08_add_listener_appends_or_ignores :
+  forall E f s et l,
+  exists s', exec E (S f) s (OAdd (Good et) (Good l)) = Done s' [] /\
+    st_scripts s' = st_scripts s /\ st_next s' = st_next s /\
+    (wf (st_subs s) -> wf (st_subs s')) /\
+    forall et', subscribers (st_subs s') et' =
+      if Nat.eqb et' et then
+        (if memb l (subscribers (st_subs s) et) then subscribers (st_subs s) et
+         else subscribers (st_subs s) et ++ [l])
+      else subscribers (st_subs s) et'.
+Proof. exact add_op. Qed.
+Print Assumptions C08_add_listener_appends_or_ignores.
+
+Theorem C08_duplicate_subscription_ignored :
+  forall E f s et l,
+    In l (subscribers (st_subs s) et) ->
+    exec E (S f) s (OAdd (Good et) (Good l)) = Done s [].
+Proof. exact add_duplicate_ignored. Qed.
+Print Assumptions C08_duplicate_subscription_ignored.
+
+(* ====================================================================== *)
+(* 3. Unsubscribing: single, absent listener, the four remove-all forms    *)
+(* ====================================================================== *)
+Theorem C08_remove_listener_removes_exactly_it :
+  forall E f s et l, wf (st_subs s) ->
+  exists s', exec E (S f) s (ORemove (Good et) (Good l)) = Done s' [] /\
+    st_scripts s' = st_scripts s /\ st_next s' = st_next s /\ wf (st_subs s') /\
+    forall et', subscribers (st_subs s') et' =
+      if Nat.eqb et' et then without l (subscribers (st_subs s) et)
+      else subscribers (st_subs s) et'.
+Proof. exact remove_op. Qed.
+Print Assumptions C08_remove_listener_removes_exactly_it.
+
+Theorem C08_unsubscribing_absent_listener_harmless :
+  forall E f s et l,
+    ~ In l (subscribers (st_subs s) et) ->
+    exec E (S f) s (ORemove (Good et) (Good l)) = Done s [] /\
+    exec E (S f) s (ORemoveAll (Good et) (Good l)) = Done s [].
+Proof. exact remove_absent_harmless. Qed.
+Print Assumptions C08_unsubscribing_absent_listener_harmless.
+
+Theorem C08_remove_everywhere_absent_listener_harmless :
+  forall E f s l,
+    (forall et, ~ In l (subscribers (st_subs s) et)) ->
+    exec E (S f) s (ORemoveAll NoneArg (Good l)) = Done s [].
+Proof. exact remove_everywhere_absent_harmless. Qed.
+Print Assumptions C08_remove_everywhere_absent_listener_harmless.
+
+Theorem C08_remove_type_without_subscribers_harmless :
+  forall E f s et, wf (st_subs s) ->
+    subscribers (st_subs s) et = [] ->
+    exec E (S f) s (ORemoveAll (Good et) NoneArg) = Done s [].
+Proof. exact remove_type_absent_harmless. Qed.
+Print Assumptions C08_remove_type_without_subscribers_harmless.
+
+(* remove_all_listeners(event_type, listener) with each argument given or
+   None.  remove_all_spec: the types hit are all (None) or the given one; for
+   a hit type the new subscriber list is empty (listener None) or the old one
+   without the listener, others keep their order; other types are untouched. *)
+Theorem C08_remove_all_four_forms :
+  forall E f s oet ol, wf (st_subs s) ->
+  exists s', exec E (S f) s (ORemoveAll (oarg oet) (oarg ol)) = Done s' [] /\
+    st_scripts s' = st_scripts s /\ st_next s' = st_next s /\ wf (st_subs s') /\
+    forall et', subscribers (st_subs s') et' =
+                remove_all_spec oet ol (subscribers (st_subs s)) et'.
+Proof. exact remove_all_op. Qed.
+Print Assumptions C08_remove_all_four_forms.
+
+Theorem C08_remove_all_both_given_is_remove_listener :
+  forall E fuel s et l,
+    exec E fuel s (ORemoveAll (Good et) (Good l)) = exec E fuel s (ORemove (Good et) (Good l)).
+Proof. exact remove_all_both_is_remove. Qed.
+Print Assumptions C08_remove_all_both_given_is_remove_listener.
+
+Theorem C08_has_listeners_iff_some_subscriber :
+  forall E f s, wf (st_subs s) ->
+  exists b, exec E (S f) s OHas = Done s [ObsHas b] /\
+    (b = true <-> exists et l, In l (subscribers (st_subs s) et)).
+Proof. exact has_listeners_op. Qed.
+Print Assumptions C08_has_listeners_iff_some_subscriber.
+
+(* wrongly typed arguments: EventError, producer untouched *)
+Theorem C08_raising_call_leaves_producer_untouched :
+  forall s o k s' t,
+    pure_step s o = Raised k s' t ->
+    s' = s /\ t = [] /\ (is_event_error k = false -> k = EUser).
+Proof. exact pure_raise_leaves_state. Qed.
+Print Assumptions C08_raising_call_leaves_producer_untouched.
+
+(* ====================================================================== *)
+(* 4. Payload against metadata                                             *)
+(* ====================================================================== *)
+(* Event(event_type, content, check) is accepted iff: the type declares no
+   metadata, or content is a dict and - unless check is off - it has exactly
+   the declared keys, each with a value that is not None and is an instance of
+   the declared class.  (md_wf / payload_wf: Python dicts have unique keys.) *)
+Theorem C08_event_accepted_iff :
+  forall E et c chk,
+    md_wf (md_of E et) -> payload_wf c ->
+    ((exists e, make_event E (Good et) c chk = MkOk e) <-> acceptable (md_of E et) c chk).
+Proof. exact event_accepted_iff. Qed.
+Print Assumptions C08_event_accepted_iff.
+
+(* a refusal is always an EventError, for Event and for TimedEvent *)
+Theorem C08_refused_event_is_event_error :
+  forall E a c chk k, make_event E a c chk = MkErr k -> is_event_error k = true.
+Proof. exact make_event_error_kind. Qed.
+Print Assumptions C08_refused_event_is_event_error.
+
+(* with metadata a non-dict payload is refused even when check is off; a dict
+   payload is accepted unchecked *)
+Theorem C08_non_dict_payload_refused_even_unchecked :
+  forall E et m c t chk,
+    md_of E et = Some m -> c_shape c = SNonDict t -> make_event E (Good et) c chk = MkErr ENotDict.
+Proof. exact non_dict_rejected. Qed.
+Print Assumptions C08_non_dict_payload_refused_even_unchecked.
+
+Theorem C08_check_off_accepts_any_dict :
+  forall E et m c items,
+    md_of E et = Some m -> c_shape c = SDict items ->
+    make_event E (Good et) c false = MkOk (mkEvent et c None).
+Proof. exact unchecked_dict_accepted. Qed.
+Print Assumptions C08_check_off_accepts_any_dict.
+
+(* ====================================================================== *)
+(* 5. Timed events                                                         *)
+(* ====================================================================== *)
+(* TimedEvent(ts, ...) is built iff ts is an int/bool/float instance and the
+   plain Event would be built; it carries ts, the payload and the type. *)
+Theorem C08_timed_event_built_iff :
+  forall E ts a c chk e,
+    make_timed E ts a c chk = MkOk e <->
+    ts_ok ts = true /\
+    exists et, make_event E a c chk = MkOk (mkEvent et c None) /\ e = mkEvent et c (Some ts).
+Proof. exact make_timed_ok_iff. Qed.
+Print Assumptions C08_timed_event_built_iff.
+
+Theorem C08_timed_event_keeps_timestamp :
+  forall E ts a c chk e,
+    make_timed E ts a c chk = MkOk e ->
+    ev_time e = Some ts /\ ev_content e = c /\ a = Good (ev_type e).
+Proof. exact timed_event_keeps_timestamp. Qed.
+Print Assumptions C08_timed_event_keeps_timestamp.
+
+(* every delivery made by fire_timed(ts, et, c) carries ts, c and et *)
+Theorem C08_fire_timed_delivers_its_timestamp :
+  forall E fuel s ts a c chk,
+    match exec E fuel s (OFireTimed ts a c chk) with
+    | Done s' t | Raised _ s' t =>
+        forall l ev, In (ObsDeliver (st_next s) l ev) t ->
+          ev_time ev = Some ts /\ ev_content ev = c /\ a = Good (ev_type ev)
+    | OutOfFuel => True
+    end.
+Proof. exact fire_timed_delivers_timestamp. Qed.
+Print Assumptions C08_fire_timed_delivers_its_timestamp.
+
+(* ====================================================================== *)
+(* Non-vacuity: a history with re-entrant listeners and nested firing      *)
+(* ====================================================================== *)
+Definition ex_pay (n : nat) : content := mkContent n (SNonDict TInt).
+(* listener 0, when first notified, unsubscribes listener 1 from type 0 and
+   subscribes listener 3; listener 1, when first notified, fires type 1 *)
+Definition ex_scripts : scripts :=
+  [ [[ORemove (Good 0) (Good 1); OAdd (Good 0) (Good 3)]];
+    [[OFire (Good 1) (ex_pay 51) true]];
+    []; [] ].
+Definition ex_ops : list op :=
+  [ OAdd (Good 0) (Good 0); OAdd (Good 0) (Good 1); OAdd (Good 0) (Good 2); OAdd (Good 0) (Good 1);
+    OAdd (Good 1) (Good 2);
+    OFire (Good 0) (ex_pay 50) true;
+    OFire (Good 0) (ex_pay 52) true ].
+Definition ex_ev (et n : nat) : event := mkEvent et (ex_pay n) None.
+
+(* the first fire still reaches listener 1 (subscribed at the moment of
+   firing, unsubscribed meanwhile) and not listener 3 (subscribed meanwhile);
+   the nested fire of type 1 runs in between; the second fire reaches 0, 2, 3 *)
+Example C08_example_reentrant_history :
+  exists s' t,
+    run_top [None; None] (fuel_for (init ex_scripts)) (init ex_scripts) ex_ops = Some (s', t) /\
+    In (ObsFire 0 (ex_ev 0 50) [0; 1; 2]) t /\ In (ObsFireDone 0) t /\
+    In (ObsFire 1 (ex_ev 1 51) [2]) t /\ In (ObsFireDone 1) t /\
+    In (ObsFire 2 (ex_ev 0 52) [0; 2; 3]) t /\ In (ObsFireDone 2) t /\
+    notified 0 t = [0; 1; 2] /\ notified 1 t = [2] /\ notified 2 t = [0; 2; 3] /\
+    erase t =
+      [IRet; IRet; IRet; IRet; IRet;
+       IDeliver 0 0 50 None; IDeliver 1 0 50 None; IDeliver 2 1 51 None; IDeliver 2 0 50 None; IRet;
+       IDeliver 0 0 52 None; IDeliver 2 0 52 None; IDeliver 3 0 52 None; IRet].
+Proof.
+  eexists. eexists. split; [vm_compute; reflexivity|].
+  vm_compute. repeat split; auto 20.
+Qed.
+
+(* the hypotheses of C08_event_accepted_iff are satisfiable, with payloads on
+   both sides of the iff *)
+Definition ex_md : menv := [Some [(0, TInt); (1, TBase)]].
+Example C08_example_payloads :
+  md_wf (md_of ex_md 0) /\
+  payload_wf (mkContent 1 (SDict [(1, PyV TDerived); (0, PyV TBool)])) /\
+  (exists e, make_event ex_md (Good 0) (mkContent 1 (SDict [(1, PyV TDerived); (0, PyV TBool)])) true = MkOk e) /\
+  make_event ex_md (Good 0) (mkContent 2 (SDict [(1, PyV TDerived); (0, PyV TStr)])) true = MkErr (EWrongType 0) /\
+  make_event ex_md (Good 0) (mkContent 3 (SDict [(1, PyV TDerived)])) true = MkErr ELength /\
+  make_event ex_md (Good 0) (mkContent 4 (SDict [(1, PyV TDerived); (2, PyV TInt)])) true = MkErr (EMissing 0) /\
+  make_event ex_md (Good 0) (mkContent 5 (SDict [(1, PyV TNone); (0, PyV TInt)])) true = MkErr (EMissing 1) /\
+  (exists e, make_event ex_md (Good 0) (mkContent 6 (SDict [(2, PyV TStr)])) false = MkOk e) /\
+  make_event ex_md (Good 0) (mkContent 7 (SNonDict TList)) false = MkErr ENotDict /\
+  make_timed ex_md (mkTs TFloat 10) (Good 0) (mkContent 1 (SDict [(1, PyV TDerived); (0, PyV TBool)])) true
+    = MkOk (mkEvent 0 (mkContent 1 (SDict [(1, PyV TDerived); (0, PyV TBool)])) (Some (mkTs TFloat 10))) /\
+  make_timed ex_md (mkTs TStr 3) (Good 0) (mkContent 1 (SDict [(1, PyV TDerived); (0, PyV TBool)])) true
+    = MkErr ETimestamp.
+Proof.
+  split; [repeat constructor; cbn; intuition discriminate|].
+  split; [repeat constructor; cbn; intuition discriminate|].
+  repeat split; try (eexists; reflexivity); reflexivity.
+Qed.
